@@ -166,7 +166,7 @@ func genHTMLTable(r *hx.Rng) *htmldoc.ParsedTable {
 	for i := r.Range(1, 4); i > 0; i-- {
 		cells := []htmldoc.TableCell{}
 		for j := r.Range(0, 4); j > 0; j-- {
-			cells = append(cells, htmldoc.TableCell{Text: genCell(r), IsHeader: r.Bool(), RowSpan: r.Range(0, 2), ColSpan: r.Range(0, 3)})
+			cells = append(cells, htmldoc.TableCell{Text: genCell(r), IsHeader: r.Bool(), RowSpan: hx.Pick(r, []int{-1, 0, 1, 1, 1, 2, 2, 3, 1025}), ColSpan: hx.Pick(r, []int{-1, 0, 1, 1, 1, 2, 3, 4, 1025})})
 		}
 		t.Rows = append(t.Rows, cells)
 	}
